@@ -346,6 +346,9 @@ func runProtocol(kc *kernelCtx, blocks []*Block, only string, want map[string]bo
 		if on("C04") || on("C09") || onPlug {
 			pc.p12AtomicValue(s)
 		}
+		if on("C04") || onPlug {
+			pc.p4Dropping(s)
+		}
 		if on("C13") || on("C05") || on("C16") {
 			pc.p7Lockset(s, on("C13"), on("C05") || on("C16"))
 		}
